@@ -35,6 +35,7 @@ func (e *Engine) resetFor(fi *FuncInfo) {
 	e.baseNames = map[string]Value{}
 	e.selfNames = map[string]Value{}
 	e.callRes = map[string][]Value{}
+	e.callArgs = map[string][][]Value{}
 	e.dynType = map[string]types.Type{}
 	e.extraStreams = nil
 	e.callN = 0
